@@ -148,6 +148,8 @@ pub struct Report {
     pub has_dotdot_or_link_step: bool,
     pub runs: Vec<RunRec>,
     pub fatal: Option<String>,
+    #[serde(default)]
+    pub skipped_placements: usize,
 }
 
 struct AttackState {
@@ -254,7 +256,7 @@ pub fn child(case: &Case) -> Report {
     let touched = touched_entries(&trace, &root_snap);
     let all: Vec<B> = case.tree.paths();
     let has_step = trace.iter().any(|s| s.name == "readlinkat" && s.dirfds.iter().any(|(_, k)| matches!(k, FdKind::Inode { .. }))) || trace.iter().any(|s| s.paths.iter().any(|p| p.0 == b"..")) || case.lookup.op.path().0.windows(2).any(|w| w == b"..");
-    let mut rep = Report { baseline: bout, baseline_syscalls: n, placement_points: points.len(), touched: touched.clone(), has_dotdot_or_link_step: has_step, runs: vec![], fatal: None };
+    let mut rep = Report { baseline: bout, baseline_syscalls: n, placement_points: points.len(), touched: touched.clone(), has_dotdot_or_link_step: has_step, runs: vec![], fatal: None, skipped_placements: 0 };
     if points.is_empty() {
         sb.destroy();
         return rep;
@@ -281,7 +283,18 @@ pub fn child(case: &Case) -> Report {
         }
         schedules.push((plan, restores));
     }
+    // bounded work per case: a lookup with thousands of syscalls (giant paths) has
+    // thousands of placement points; keep an evenly spaced sample of 200 of them, and
+    // stop after 45 s (runs that were made are judged, the rest is counted as skipped)
+    const MAX_PLACEMENTS: usize = 200;
+    let total = schedules.len();
+    let keep: Vec<bool> = (0..total).map(|k| total <= MAX_PLACEMENTS || (k * MAX_PLACEMENTS / total) != ((k + 1) * MAX_PLACEMENTS / total) || k < 20).collect();
+    let t0 = now_s();
     for (k, (plan, restores)) in schedules.into_iter().enumerate() {
+        if case.only_placement.is_none() && (!keep[k] || now_s() - t0 > 45.0) {
+            rep.skipped_placements += 1;
+            continue;
+        }
         if let Some(only) = case.only_placement {
             if only != k {
                 continue;
@@ -319,6 +332,7 @@ pub fn judge(case: &Case, rep: &Report, stats: &mut Stats) -> Result<(), Fail> {
     stats.class(&format!("backend:{}", backend(case.kcfg)));
     stats.class(&format!("baseline:{}", rep.baseline.class()));
     stats.count("placement_points_total", rep.placement_points as u64);
+    stats.count("placements_skipped_by_work_bound", rep.skipped_placements as u64);
     for (k, r) in rep.runs.iter().enumerate() {
         stats.eval();
         stats.class(&format!("attacked-outcome:{}", r.out.class()));
@@ -367,7 +381,7 @@ pub fn judge(case: &Case, rep: &Report, stats: &mut Stats) -> Result<(), Fail> {
 }
 
 pub fn check(case: &Case, stats: &mut Stats) -> Result<(), Fail> {
-    match run_in_child(120.0, || child(case)) {
+    match run_in_child(300.0, || child(case)) {
         ChildOut::Ok(rep) => judge(case, &rep, stats),
         ChildOut::Crashed { sig } => Err(Fail::Violation(Violation {
             check: "attack".into(),
